@@ -450,6 +450,18 @@ def run_case(case, log=True, probe_held=False, check_release=False, delay=0.0, o
     if sc.get("starve") is not None:
         weights = {("worker_thread_%d" % sc["starve"]): 0.05}
     kill = case.get("kill")
+    import gc
+    gc_was = gc.isenabled()
+    gc.disable()  # a cyclic-GC run may call `_ParallelMapperIter.__del__` (=> switch points) at arbitrary places; collect at op boundaries
+    try:
+        return _run_case(case, r, sc, weights, kill, probe_held, check_release, delay, op_budget)
+    finally:
+        if gc_was:
+            gc.enable()
+
+
+def _run_case(case, r, sc, weights, kill, probe_held, check_release, delay, op_budget):
+    import gc
     with Instr() as instr:
         with Session(sc["seed"], adversarial=bool(sc.get("adv")), log=True, weights=weights, op_budget=op_budget) as s:
             src = Src(case["items"], case["term"], delay=delay)
@@ -519,6 +531,7 @@ def run_case(case, log=True, probe_held=False, check_release=False, delay=0.0, o
 
             try:
                 for op in case["hist"]:
+                    gc.collect()
                     s.begin_op()
                     if node is None and op != "reload":
                         r.obs.append(("skip",))
@@ -568,6 +581,7 @@ def run_case(case, log=True, probe_held=False, check_release=False, delay=0.0, o
                             raise
                         except Exception as e:  # noqa: BLE001
                             r.obs.append(("reload_err", _err_kind(e)))
+                            node = None  # a raising reset() leaves a half-initialised node: end of this node's history
                     elif op == "del":
                         n_before = len(instr.gens)
                         del node
@@ -655,7 +669,7 @@ def model_cfg(case, g: Gen) -> Dict[str, Any]:
 
 
 def _kt_one(ctx: Ctx, case) -> Optional[Dict[str, Any]]:
-    r = run_case(case)
+    r = run_case(case, op_budget=6.0)
     traces, stale = translate(r.events, r.gens, case["in_order"])
     reqs = []
     for g, tr in zip(r.gens, traces):
